@@ -4,6 +4,7 @@ package chansim
 
 import (
 	"bytes"
+	"errors"
 	"crypto/sha256"
 	"fmt"
 
@@ -135,6 +136,9 @@ func (s *Sim) DoAddExp(x int, amt lnwire.MilliSatoshi, expiry uint32,
 		if IsConstraintErr(err) {
 			s.tracef("%s add %d msat: refused (%v)", sideName(x), h.Amt, err)
 			s.label("add_refused")
+			if errors.Is(err, lnwallet.ErrMaxHTLCNumber) {
+				s.label("max_htlc_hit")
+			}
 			return false, nil
 		}
 		return false, violationf("%s AddHTLC(%d msat): unexpected "+
@@ -187,6 +191,7 @@ func (s *Sim) DoResolve(y int, h *HTLC, kind UpdKind) error {
 			sideName(y), kind, h.ID, err)
 	}
 	s.send(y, Update{Kind: kind, H: h, Msg: msg})
+	s.label("resolved_" + kind.String())
 	s.tracef("%s %v id=%d", sideName(y), kind, h.ID)
 	return nil
 }
